@@ -195,17 +195,27 @@ Proof. apply tag_eqb_refl. Qed.
 (* ---- compress_file ---- *)
 Definition others : list path := [PMeta; PBinTmp; PSBin; PSBinTmp; PSMeta].
 
+(* header and stream are published by two renames; pub says where a state is:
+   nothing published yet / header published, stream still under its temporary
+   name (the complete new stream, source intact) / both published *)
+Definition pub (r c : Z) (fs0 x : fsys) : Prop :=
+  (x PCh = fs0 PCh /\ x PCbin = fs0 PCbin) \/
+  (x PCh = Complete (Hdr r c) /\ x PCbin = fs0 PCbin /\
+   x PCbinTmp = Complete (Comp r c) /\ x PChTmp = Absent /\ x PBin = Complete (Orig r)) \/
+  (x PCh = Complete (Hdr r c) /\ x PCbin = Complete (Comp r c)).
+
 Definition cQ (r c : Z) (keep : bool) (fs0 x : fsys) : Prop :=
   (x PCbin = fs0 PCbin \/ x PCbin = Complete (Comp r c)) /\
   (x PBin = Complete (Orig r) \/
    (keep = false /\ x PBin = Absent /\
     x PCbin = Complete (Comp r c) /\ x PCh = Complete (Hdr r c))) /\
-  (forall q, In q others -> x q = fs0 q).
+  (forall q, In q others -> x q = fs0 q) /\
+  pub r c fs0 x.
 
 Definition compress_tail (r c : Z) (keep chk : bool) : list step :=
-  [SClose PCbinTmp (Comp r c); SOpenW PCh; SDump PCh (Hdr r c)] ++
-  (if chk then [SVerify PCbinTmp PCh PBin r c] else []) ++
-  [SRename PCbinTmp PCbin] ++
+  [SClose PCbinTmp (Comp r c); SOpenW PChTmp; SDump PChTmp (Hdr r c)] ++
+  (if chk then [SVerify PCbinTmp PChTmp PBin r c] else []) ++
+  [SRename PChTmp PCh; SRename PCbinTmp PCbin] ++
   (if keep then [] else [SUnlink PBin]).
 
 Lemma compress_steps_split r c m B keep chk :
@@ -220,9 +230,10 @@ Ltac fs_simpl :=
 Ltac others_cases Hq := unfold others in Hq; cbn [In] in Hq;
   repeat (destruct Hq as [Hq|Hq]; [subst; cbn [path_code Z.eqb Pos.eqb]|]); try contradiction.
 
-Ltac solve_cQ Hb Hc Hot :=
-  unfold cQ; cbn [path_code Z.eqb Pos.eqb]; rewrite ?Hb, ?Hc;
-  split; [auto|split; [auto 6|intros q Hq; rewrite <- (Hot q Hq); others_cases Hq; reflexivity]].
+Ltac solve_cQ Hb Hc Hh Hot :=
+  unfold cQ, pub; cbn [path_code Z.eqb Pos.eqb]; rewrite ?Hb, ?Hc, ?Hh;
+  split; [auto|split; [auto 6|split;
+    [intros q Hq; rewrite <- (Hot q Hq); others_cases Hq; reflexivity|auto 10]]].
 
 Lemma compress_tail_reach r c keep chk fs0 fs2 :
   fs0 PBin = Complete (Orig r) ->
@@ -232,10 +243,11 @@ Proof.
   intros Hsrc Ho.
   assert (Hb : fs2 PBin = Complete (Orig r)) by (rewrite Ho; auto).
   assert (Hc : fs2 PCbin = fs0 PCbin) by (apply Ho; reflexivity).
+  assert (Hh : fs2 PCh = fs0 PCh) by (apply Ho; reflexivity).
   assert (Hot : forall q, In q others -> fs2 q = fs0 q).
   { intros q Hq. apply Ho. others_cases Hq; reflexivity. }
   unfold compress_tail. destruct chk, keep; cbn [app reach effect]; fs_simpl; rewrite ?Hb; fs_simpl;
-  repeat first [apply Forall_nil | apply Forall_cons; [solve_cQ Hb Hc Hot|]
+  repeat first [apply Forall_nil | apply Forall_cons; [solve_cQ Hb Hc Hh Hot|]
                | progress (fs_simpl; rewrite ?Hb; fs_simpl)].
 Qed.
 
@@ -244,22 +256,29 @@ Lemma compress_tail_run r c keep chk fs2 :
   fs2 PBin = Complete (Orig r) ->
   exists fsf, run (compress_tail r c keep chk) fs2 = Some fsf /\
     fsf PCbin = Complete (Comp r c) /\ fsf PCh = Complete (Hdr r c) /\
-    fsf PCbinTmp = Absent /\
+    fsf PCbinTmp = Absent /\ fsf PChTmp = Absent /\
     fsf PBin = (if keep then Complete (Orig r) else Absent).
 Proof.
   intros Hb. unfold compress_tail.
   destruct chk, keep; cbn [app run effect]; repeat progress (fs_simpl; rewrite ?Hb);
-    eexists; (split; [reflexivity|]); cbn [path_code Z.eqb Pos.eqb]; rewrite ?Hb; auto.
+    eexists; (split; [reflexivity|]); cbn [path_code Z.eqb Pos.eqb]; rewrite ?Hb; auto 6.
 Qed.
 
-(* ordering inside the tail: the rename publishes a complete stream next to a
-   complete header; the source is unlinked only after that *)
+(* ordering inside the tail: the header is published only once stream and
+   header are complete (and verified when asked); the stream is published
+   next, with the complete header already in place; the source is unlinked
+   only after both *)
 Definition c_order (r c : Z) (e : fsys * step) : Prop :=
   let '(x, s) := e in
+  (s = SRename PChTmp PCh ->
+     x PChTmp = Complete (Hdr r c) /\ x PCbinTmp = Complete (Comp r c) /\
+     x PBin = Complete (Orig r)) /\
   (s = SRename PCbinTmp PCbin ->
-     x PCbinTmp = Complete (Comp r c) /\ x PCh = Complete (Hdr r c) /\ x PBin = Complete (Orig r)) /\
+     x PCbinTmp = Complete (Comp r c) /\ x PCh = Complete (Hdr r c) /\
+     x PChTmp = Absent /\ x PBin = Complete (Orig r)) /\
   (s = SUnlink PBin ->
-     x PCbin = Complete (Comp r c) /\ x PCh = Complete (Hdr r c) /\ x PCbinTmp = Absent).
+     x PCbin = Complete (Comp r c) /\ x PCh = Complete (Hdr r c) /\
+     x PCbinTmp = Absent /\ x PChTmp = Absent).
 
 Lemma compress_tail_order r c keep chk fs2 :
   fs2 PBin = Complete (Orig r) ->
@@ -269,8 +288,8 @@ Proof.
   destruct chk, keep; cbn [app pre_steps effect]; fs_simpl; rewrite ?Hb; fs_simpl;
   repeat first [apply Forall_nil
                | apply Forall_cons;
-                 [unfold c_order; split; intros Hs; try discriminate Hs;
-                  cbn [path_code Z.eqb Pos.eqb]; rewrite ?Hb; auto|]
+                 [unfold c_order; split; [|split]; intros Hs; try discriminate Hs;
+                  cbn [path_code Z.eqb Pos.eqb]; rewrite ?Hb; auto 6|]
                | progress (fs_simpl; rewrite ?Hb; fs_simpl)].
 Qed.
 
@@ -295,9 +314,9 @@ Qed.
 Lemma cQ_of_rel r c keep fs0 x :
   fs0 PBin = Complete (Orig r) -> body_rel PCbinTmp fs0 x -> cQ r c keep fs0 x.
 Proof.
-  intros Hsrc [Ho _]. unfold cQ.
-  rewrite (Ho PCbin eq_refl), (Ho PBin eq_refl).
-  split; [auto|split; [auto|]].
+  intros Hsrc [Ho _]. unfold cQ, pub.
+  rewrite (Ho PCbin eq_refl), (Ho PBin eq_refl), (Ho PCh eq_refl).
+  split; [auto|split; [auto|split; [|auto]]].
   intros q Hq. apply Ho. others_cases Hq; reflexivity.
 Qed.
 
@@ -335,7 +354,7 @@ Lemma compress_run r c m B keep chk fs0 :
   fs0 PBin = Complete (Orig r) ->
   exists fsf, run (compress_steps r c m B keep chk) fs0 = Some fsf /\
     fsf PCbin = Complete (Comp r c) /\ fsf PCh = Complete (Hdr r c) /\
-    fsf PCbinTmp = Absent /\
+    fsf PCbinTmp = Absent /\ fsf PChTmp = Absent /\
     fsf PBin = (if keep then Complete (Orig r) else Absent).
 Proof.
   intros Hsrc. rewrite compress_steps_split, run_app. cbn [run effect].
@@ -350,12 +369,12 @@ Lemma compress_order r c m B keep chk fs0 :
 Proof.
   intros Hsrc. rewrite compress_steps_split.
   apply pre_steps_app_forall.
-  - cbn. apply Forall_cons; [|apply Forall_nil]. split; intros Hs; discriminate Hs.
+  - cbn. apply Forall_cons; [|apply Forall_nil]. split; [|split]; intros Hs; discriminate Hs.
   - intros fs1 H1. cbn in H1. inversion H1; subst fs1; clear H1.
     apply pre_steps_app_forall.
     + eapply Forall_impl; [|apply (body_pre_steps PCbinTmp _ (batches_body _ m B))].
       intros [x s] Hs. cbn in Hs. unfold c_order.
-      destruct Hs as [[k ->]|[k ->]]; split; intros E; discriminate E.
+      destruct Hs as [[k ->]|[k ->]]; (split; [|split]); intros E; discriminate E.
     + intros fs2 H2.
       destruct (body_run PCbinTmp _ (batches_body _ m B) _ _ (open_tmp_rel fs0 PCbinTmp)) as [x' [Hx' [Ho _]]].
       rewrite H2 in Hx'. inversion Hx'; subst x'; clear Hx'.
@@ -372,18 +391,20 @@ Lemma compress_atomic r c m B keep chk fs0 fault :
    (keep = false /\ fs' PBin = Absent /\
     fs' PCbin = Complete (Comp r c) /\ fs' PCh = Complete (Hdr r c))) /\
   (forall q, In q others -> fs' q = fs0 q) /\
+  pub r c fs0 fs' /\
   (final_oc res = Done ->
      fs' PCbin = Complete (Comp r c) /\ fs' PCh = Complete (Hdr r c) /\
-     fs' PCbinTmp = Absent /\ fs' PBin = (if keep then Complete (Orig r) else Absent)) /\
+     fs' PCbinTmp = Absent /\ fs' PChTmp = Absent /\
+     fs' PBin = (if keep then Complete (Orig r) else Absent)) /\
   (fault = None -> final_oc res = Done) /\
   final_oc res <> Failed.
 Proof.
   intros Hsrc res fs'.
   pose proof (compress_reach r c m B keep chk fs0 Hsrc) as HR.
   rewrite Forall_forall in HR.
-  destruct (HR fs' (exec_final_in_reach _ _ _)) as [Ha [Hb Hc]].
+  destruct (HR fs' (exec_final_in_reach _ _ _)) as [Ha [Hb [Hc Hp]]].
   destruct (compress_run r c m B keep chk fs0 Hsrc) as [fsf [Hrun Hf]].
-  split; [exact Ha|split; [exact Hb|split; [exact Hc|split; [|split]]]].
+  split; [exact Ha|split; [exact Hb|split; [exact Hc|split; [exact Hp|split; [|split]]]]].
   - intros H. pose proof (exec_done_run _ _ _ H) as E. fold res fs' in E. rewrite Hrun in E.
     inversion E as [E1]. rewrite <- E1. exact Hf.
   - intros ->. unfold res. rewrite (exec_nofault _ _ _ Hrun). reflexivity.
@@ -1112,13 +1133,13 @@ Lemma resolve_same_recording r fs e :
 Proof.
   intros [Cb Cc] Hd He Hm. unfold open_outcome. rewrite Hm.
   destruct e; cbn [entry_path resolve] in *.
-  - exists DBin. rewrite He. cbn. auto.
+  - exists DBin. rewrite He. cbn. split; [reflexivity|split; [apply Cb, He|reflexivity]].
   - exists DCbin. rewrite He. cbn. destruct (Cc He) as [c [E1 E2]].
     rewrite E2. cbn. split; [reflexivity|split; [eauto|reflexivity]].
   - destruct (present (fs PBin)) eqn:Eb.
-    + exists DBin. cbn. rewrite Eb. auto.
-    + cbn in Hd. rewrite Hd. exists DCbin. cbn. rewrite Hd.
-      destruct (Cc Hd) as [c [E1 E2]]. rewrite E2. cbn.
+    + exists DBin. cbn. split; [reflexivity|split; [apply Cb; reflexivity|reflexivity]].
+    + cbn in Hd. destruct (Cc Hd) as [c [E1 E2]]. rewrite Hd. exists DCbin. cbn.
+      rewrite E2. cbn.
       split; [reflexivity|split; [eauto|reflexivity]].
 Qed.
 
@@ -1134,18 +1155,22 @@ Definition fs_cbin_only : fsys :=
   fun p => match p with PCbin => Complete (Comp 1 1) | PCh => Complete (Hdr 1 1)
                    | PMeta => Complete (MetaOf 1) | _ => Absent end.
 
-(* a fault while the header is written leaves a truncated x.ch under its final name *)
-Lemma header_partial_witness :
+(* since 746882f a fault while the header is written leaves only temporaries behind *)
+Lemma header_fault_witness :
   let res := exec (compress_steps 1 1 2 1 true true) fs_bin_only (Some 6%nat) in
-  final_oc res = Raised /\ final_fs res PCh = Partial 0 /\ final_fs res PCbin = Absent.
-Proof. vm_compute. auto. Qed.
+  final_oc res = Raised /\ final_fs res PCh = Absent /\ final_fs res PCbin = Absent /\
+  final_fs res PChTmp = Partial 0 /\ final_fs res PCbinTmp = Complete (Comp 1 1).
+Proof. vm_compute. auto 6. Qed.
 
-(* a failed re-compression leaves the old stream next to the new header *)
-Lemma stale_pair_witness :
-  let res := exec (compress_steps 1 1 2 1 true true) fs_bin_stale (Some 7%nat) in
+(* the one window left: a fault exactly between the two renames, with an older
+   pair of another chunking present, leaves the new complete header next to the
+   old complete stream; the new complete stream is in x.cbin_tmp, x.bin intact *)
+Lemma between_renames_witness :
+  let res := exec (compress_steps 1 1 2 1 true true) fs_bin_stale (Some 9%nat) in
   final_oc res = Raised /\ final_fs res PCbin = Complete (Comp 1 2) /\
-  final_fs res PCh = Complete (Hdr 1 1) /\ final_fs res PBin = Complete (Orig 1).
-Proof. vm_compute. auto. Qed.
+  final_fs res PCh = Complete (Hdr 1 1) /\ final_fs res PCbinTmp = Complete (Comp 1 1) /\
+  final_fs res PBin = Complete (Orig 1).
+Proof. vm_compute. auto 6. Qed.
 
 (* decompress_file writes under the final name: a fault leaves a truncated x.bin *)
 Lemma decompress_partial_witness :
@@ -1153,3 +1178,17 @@ Lemma decompress_partial_witness :
   final_oc res = Raised /\ final_fs res PBin = Partial 1 /\
   final_fs res PCbin = Complete (Comp 1 1) /\ final_fs res PCh = Complete (Hdr 1 1).
 Proof. vm_compute. auto. Qed.
+
+(* no partial file ever carries the final name x.cbin or x.ch *)
+Lemma final_names_never_partial r c m B keep chk fs0 fault :
+  fs0 PBin = Complete (Orig r) ->
+  (forall j, fs0 PCbin <> Partial j) -> (forall j, fs0 PCh <> Partial j) ->
+  let fs' := final_fs (exec (compress_steps r c m B keep chk) fs0 fault) in
+  forall j, fs' PCbin <> Partial j /\ fs' PCh <> Partial j.
+Proof.
+  intros Hsrc N1 N2 fs' j.
+  destruct (compress_atomic r c m B keep chk fs0 fault Hsrc) as [A [_ [_ [P _]]]].
+  cbn zeta in A, P. fold fs' in A, P. split.
+  - destruct A as [A|A]; rewrite A; [apply N1|discriminate].
+  - destruct P as [[P _]|[[P _]|[P _]]]; rewrite P; [apply N2|discriminate|discriminate].
+Qed.
